@@ -103,7 +103,14 @@ var scopeTexts = []string{"", "repository:a:pull", "repository:a:pull,push repos
 
 // callerScope returns the scope to put in the context and the scope the backend must see.
 func (w *world) callerScope(rng *rand.Rand) (ociauth.Scope, ociauth.Scope, string) {
-	k := rng.IntN(len(scopeTexts) + 2)
+	k := rng.IntN(len(scopeTexts) + 3)
+	if k == len(scopeTexts)+2 {
+		// a view repository whose own name starts with the prefix, next to its namesake without it
+		txt := fmt.Sprintf("repository:%s/x:pull repository:x:push repository:%s:pull", w.prefix, w.prefix)
+		s := ociauth.ParseScope(txt)
+		want := ociauth.ParseScope(fmt.Sprintf("repository:%s/%s/x:pull repository:%s/x:push repository:%s/%s:pull", w.prefix, w.prefix, w.prefix, w.prefix, w.prefix))
+		return s, want, fmt.Sprintf("%q", txt)
+	}
 	if k == len(scopeTexts) {
 		return ociauth.UnlimitedScope(), ociauth.UnlimitedScope(), "unlimited"
 	}
